@@ -427,23 +427,41 @@ class SimPool:
                 raise RuntimeError("SimPool: step limit")
 
 
-class _SimFuture:
-    def __init__(self, res):
-        self._res = res
+import concurrent.futures as _cf
+
+
+class SimFuture(_cf.Future):
+    """A real concurrent.futures.Future that is resolved by the simulated dispatcher; blocking calls drive it."""
+
+    def __init__(self, pool):
+        super().__init__()
+        self._sim_pool = pool
+        self.set_running_or_notify_cancel()
+
+    def _drive(self):
+        self._sim_pool._run_until(lambda: super(SimFuture, self).done())
 
     def result(self, timeout=None):
-        return self._res.get()
-
-    def done(self):
-        return self._res.ready()
+        if timeout is None:
+            self._drive()
+        else:
+            self._sim_pool._poll_point(extra=2)
+            if not super().done():
+                raise _cf.TimeoutError()
+        return super().result(0)
 
     def exception(self, timeout=None):
-        self._res.wait()
-        return None if self._res._ok else self._res._value
+        if timeout is None:
+            self._drive()
+        else:
+            self._sim_pool._poll_point(extra=2)
+            if not super().done():
+                raise _cf.TimeoutError()
+        return super().exception(0)
 
-    def add_done_callback(self, fn):
-        self._res.wait()
-        fn(self)
+    def done(self):
+        self._sim_pool._poll_point()
+        return super().done()
 
 
 class SimExecutor:
@@ -453,13 +471,29 @@ class SimExecutor:
         self._pool = SimPool(processes=max_workers or 2)
 
     def submit(self, fn, *args, **kwargs):
-        return _SimFuture(self._pool.apply_async(fn, args, kwargs))
+        fut = SimFuture(self._pool)
+
+        def ok(value):
+            fut.set_result(value)
+
+        def err(exc):
+            fut.set_exception(exc)
+
+        self._pool.apply_async(fn, args, kwargs, callback=ok, error_callback=err)
+        return fut
 
     def map(self, fn, *iterables, timeout=None, chunksize=1):
         futs = [self.submit(fn, *a) for a in zip(*iterables)]
-        return (f.result() for f in futs)
+
+        def gen():
+            for f in futs:
+                yield f.result()
+
+        return gen()
 
     def shutdown(self, wait=True, cancel_futures=False):
+        if self._pool._terminated:
+            return
         self._pool.close()
         self._pool.join()
 
@@ -468,6 +502,45 @@ class SimExecutor:
 
     def __exit__(self, *exc):
         self.shutdown()
+
+
+def _sim_as_completed(fs, timeout=None):
+    fs = list(fs)
+    sim = [f for f in fs if isinstance(f, SimFuture)]
+    if len(sim) != len(fs):
+        yield from _REAL_AS_COMPLETED(fs, timeout)
+        return
+    yielded = set()
+    while len(yielded) < len(fs):
+        pending = [f for f in fs if id(f) not in yielded]
+        ready = [f for f in pending if _cf.Future.done(f)]
+        if not ready:
+            pool = pending[0]._sim_pool
+            pool._run_until(lambda: any(_cf.Future.done(f) for f in pending))
+            ready = [f for f in pending if _cf.Future.done(f)]
+        # completion order = delivery order of the dispatcher
+        order = {t: i for i, t in enumerate(ready[0]._sim_pool._delivery_order)}
+        for f in ready:
+            yielded.add(id(f))
+            yield f
+
+
+def _sim_wait(fs, timeout=None, return_when="ALL_COMPLETED"):
+    fs = list(fs)
+    if not all(isinstance(f, SimFuture) for f in fs):
+        return _REAL_WAIT(fs, timeout, return_when)
+    if fs:
+        pool = fs[0]._sim_pool
+        if return_when == "ALL_COMPLETED":
+            pool._run_until(lambda: all(_cf.Future.done(f) for f in fs))
+        else:
+            pool._run_until(lambda: any(_cf.Future.done(f) for f in fs))
+    done = {f for f in fs if _cf.Future.done(f)}
+    return _cf._base.DoneAndNotDoneFutures(done, set(fs) - done)
+
+
+_REAL_AS_COMPLETED = _cf.as_completed
+_REAL_WAIT = _cf.wait
 
 
 def install_pool():
@@ -484,6 +557,8 @@ def install_pool():
         pass
     concurrent.futures.ProcessPoolExecutor = SimExecutor
     concurrent.futures.ThreadPoolExecutor = SimExecutor
+    concurrent.futures.as_completed = _sim_as_completed
+    concurrent.futures.wait = _sim_wait
     try:
         import whatshap.polyphase.algorithm as alg
 
@@ -498,6 +573,10 @@ def install_pool():
                     cur = getattr(mod, attr)
                     if getattr(cur, "__module__", "").startswith(("multiprocessing", "concurrent")):
                         setattr(mod, attr, SimPool if attr == "Pool" else SimExecutor)
+            if getattr(mod, "as_completed", None) is _REAL_AS_COMPLETED:
+                mod.as_completed = _sim_as_completed
+            if getattr(mod, "wait", None) is _REAL_WAIT:
+                mod.wait = _sim_wait
 
 
 # ------------------------------------------------------------------------------------------------
